@@ -708,3 +708,141 @@ mod verif_c16 {
   }
   // VERIF-END verif_c16
 }
+
+#[cfg(all(kani, verif_c18))]
+mod verif_c18 {
+  use super::*;
+  use crate::vassert;
+  use crate::verif::vstub;
+
+  /// Routing: over the whole bus, a byte write emits iff it is an SC write with bit 7, and then emits SB.
+  #[kani::proof]
+  #[kani::unwind(10)]
+  #[kani::stub(crate::system::get_rom_buffer, vstub::stub_get_rom_buffer)]
+  #[kani::stub(crate::mem::create_buffer, vstub::stub_create_buffer)]
+  #[kani::stub(crate::devices::video::lcd::LCD::new, vstub::stub_lcd_new)]
+  #[kani::stub(<std::io::Stdout as std::io::Write>::write, vstub::stub_stdout_write)]
+  #[kani::stub(<std::io::Stdout as std::io::Write>::flush, vstub::stub_stdout_flush)]
+  #[kani::stub(std::io::_print, vstub::stub_print)]
+  #[kani::stub(<std::io::Stdout as std::io::Write>::write_all, vstub::stub_stdout_write_all)]
+  #[kani::stub(<std::io::StdoutLock<'_> as std::io::Write>::write, vstub::stub_lock_write)]
+  #[kani::stub(<std::io::StdoutLock<'_> as std::io::Write>::write_all, vstub::stub_lock_write_all)]
+  #[kani::stub(<std::io::StdoutLock<'_> as std::io::Write>::flush, vstub::stub_lock_flush)]
+  fn c18_bus_routing() {
+    let h = Header::verif_with(0, 0, 0);
+    let mut m = verif_areas(&h);
+    let p = &mut m as *mut MemoryAreas;
+    let sb: u8 = kani::any();
+    let addr: u16 = kani::any();
+    let v: u8 = kani::any();
+    vstub::out_reset();
+    memory_write_byte(p, 0xff01, sb);
+    let n0 = vstub::out_len();
+    memory_write_byte(p, addr, v);
+    let n1 = vstub::out_len();
+    let b0 = vstub::out_byte(0);
+    // reads never emit
+    let _ = memory_read_byte(p, kani::any());
+    let n2 = vstub::out_len();
+    vstub::out_finish();
+    vassert!(n0 == 0, "C18.bus.sb_write_emits_nothing");
+    if addr == 0xff02 && v & 0x80 != 0 {
+      vassert!(n1 == 1, "C18.bus.sc_write_emits_one_byte");
+      vassert!(b0 == sb, "C18.bus.sc_write_emits_sb");
+    } else {
+      vassert!(n1 == 0, "C18.bus.other_writes_emit_nothing");
+    }
+    vassert!(n2 == n1, "C18.bus.reads_emit_nothing");
+    kani::cover!(addr == 0xff02 && v & 0x80 != 0, "reached");
+    core::mem::forget(m);
+  }
+
+  /// Sequences of writes to SB/SC: stdout carries exactly the reference list, in order.
+  fn seq(n: usize) {
+    let h = Header::verif_with(0, 0, 0);
+    let mut m = verif_areas(&h);
+    let p = &mut m as *mut MemoryAreas;
+    let mut latch: u8 = 0;
+    let mut exp = [0u8; 8];
+    let mut nexp = 0usize;
+    vstub::out_reset();
+    let mut i = 0;
+    while i < n {
+      let to_sc: bool = kani::any();
+      let v: u8 = kani::any();
+      if to_sc {
+        memory_write_byte(p, 0xff02, v);
+        if v & 0x80 != 0 { exp[nexp & 7] = latch; nexp += 1; }
+      } else {
+        memory_write_byte(p, 0xff01, v);
+        latch = v;
+      }
+      i += 1;
+    }
+    let got = vstub::out_len();
+    let (g0, g1, g2, g3) = (vstub::out_byte(0), vstub::out_byte(1), vstub::out_byte(2), vstub::out_byte(3));
+    vstub::out_finish();
+    vassert!(got == nexp, "C18.seq.count");
+    if nexp > 0 { vassert!(g0 == exp[0], "C18.seq.byte0"); }
+    if nexp > 1 { vassert!(g1 == exp[1], "C18.seq.byte1"); }
+    if nexp > 2 { vassert!(g2 == exp[2], "C18.seq.byte2"); }
+    if nexp > 3 { vassert!(g3 == exp[3], "C18.seq.byte3"); }
+    kani::cover!(nexp == 2, "reached");
+    core::mem::forget(m);
+  }
+  macro_rules! seqh {
+    ($name:ident, $n:expr, $unwind:expr) => {
+      #[kani::proof]
+      #[kani::unwind($unwind)]
+      #[kani::stub(crate::system::get_rom_buffer, vstub::stub_get_rom_buffer)]
+      #[kani::stub(crate::mem::create_buffer, vstub::stub_create_buffer)]
+      #[kani::stub(crate::devices::video::lcd::LCD::new, vstub::stub_lcd_new)]
+      #[kani::stub(<std::io::Stdout as std::io::Write>::write, vstub::stub_stdout_write)]
+      #[kani::stub(<std::io::Stdout as std::io::Write>::flush, vstub::stub_stdout_flush)]
+      #[kani::stub(std::io::_print, vstub::stub_print)]
+  #[kani::stub(<std::io::Stdout as std::io::Write>::write_all, vstub::stub_stdout_write_all)]
+  #[kani::stub(<std::io::StdoutLock<'_> as std::io::Write>::write, vstub::stub_lock_write)]
+  #[kani::stub(<std::io::StdoutLock<'_> as std::io::Write>::write_all, vstub::stub_lock_write_all)]
+  #[kani::stub(<std::io::StdoutLock<'_> as std::io::Write>::flush, vstub::stub_lock_flush)]
+      fn $name() { seq($n); }
+    };
+  }
+  seqh!(c18_seq4, 4, 10);
+  #[cfg(verif_thorough)]
+  seqh!(c18_seq7, 7, 10);
+
+  /// A 16-bit store straddling SB/SC (LD (0xff01),SP) writes SB first, then SC.
+  #[kani::proof]
+  #[kani::unwind(10)]
+  #[kani::stub(crate::system::get_rom_buffer, vstub::stub_get_rom_buffer)]
+  #[kani::stub(crate::mem::create_buffer, vstub::stub_create_buffer)]
+  #[kani::stub(crate::devices::video::lcd::LCD::new, vstub::stub_lcd_new)]
+  #[kani::stub(<std::io::Stdout as std::io::Write>::write, vstub::stub_stdout_write)]
+  #[kani::stub(<std::io::Stdout as std::io::Write>::flush, vstub::stub_stdout_flush)]
+  #[kani::stub(std::io::_print, vstub::stub_print)]
+  #[kani::stub(<std::io::Stdout as std::io::Write>::write_all, vstub::stub_stdout_write_all)]
+  #[kani::stub(<std::io::StdoutLock<'_> as std::io::Write>::write, vstub::stub_lock_write)]
+  #[kani::stub(<std::io::StdoutLock<'_> as std::io::Write>::write_all, vstub::stub_lock_write_all)]
+  #[kani::stub(<std::io::StdoutLock<'_> as std::io::Write>::flush, vstub::stub_lock_flush)]
+  fn c18_word_store() {
+    let h = Header::verif_with(0, 0, 0);
+    let mut m = verif_areas(&h);
+    let p = &mut m as *mut MemoryAreas;
+    let old: u8 = kani::any();
+    let w: u16 = kani::any();
+    memory_write_byte(p, 0xff01, old);
+    vstub::out_reset();
+    memory_write_word(p, 0xff01, w);
+    let n = vstub::out_len();
+    let b0 = vstub::out_byte(0);
+    vstub::out_finish();
+    if w & 0x8000 != 0 {
+      vassert!(n == 1 && b0 == (w & 0xff) as u8, "C18.word.low_byte_first");
+    } else {
+      vassert!(n == 0, "C18.word.bit7_clear");
+    }
+    kani::cover!(w & 0x8000 != 0, "reached");
+    core::mem::forget(m);
+  }
+  // VERIF-END verif_c18
+}
